@@ -530,6 +530,12 @@ func runC19(rc *RunCtx) {
 				w.poison("filetree", filetreetypes.PubkeyKeyPrefix+string(filetreetypes.PubkeyKey(w.bech(u))), filetreetypes.PubkeyKeyPrefix+string(filetreetypes.PubkeyKey(w.bech(u))))
 			}
 			w.tx(u, "filetree.PostKey", &filetreetypes.MsgPostKey{Creator: w.bech(u), Key: key})
+			if rc.Chance(0.4) {
+				// the same account posts a key under the upper-case spelling of its address (valid bech32, same signer): the
+				// module files it as a record of its own, and a record of its own has to come through the round trip
+				w.tx(u, "filetree.PostKey", &filetreetypes.MsgPostKey{Creator: strings.ToUpper(w.bech(u)), Key: fmt.Sprintf("%x-upper", randBytes(rc.Rng, int64(1+rc.Intn(40))))})
+				rc.Count("pubkeys_under_upper_case_spelling", 1)
+			}
 		})
 	}
 	rootPath := filetreetypes.MerklePath("s")
@@ -721,6 +727,16 @@ func runC19(rc *RunCtx) {
 			}
 		}
 	}
+	if rc.Chance(0.4) {
+		// export at a height whose decimal spelling ends in 9 (keys that embed decimal heights sort as text, not as numbers)
+		for c.Height%10 != 9 {
+			if _, err := c.NextBlock(6 * time.Second); err != nil {
+				rc.Abort("extra block: " + err.Error())
+				return
+			}
+		}
+		rc.Count("exports_at_a_height_ending_in_9", 1)
+	}
 	if err := c.EndAndCommit(); err != nil {
 		rc.Abort("closing the last block: " + err.Error())
 		return
@@ -816,6 +832,23 @@ func runC19(rc *RunCtx) {
 	kf, ev := c19CompareKV(srcKV, dstKV, w.poisoned, w.poisonExtra)
 	rc.Eval(ev)
 	findings = append(findings, kf...)
+	// the emission record of the export height itself (the one the next block's emission is derived from) has to come
+	// through, whatever happens to older history (older records are a listed finding under another signature)
+	{
+		suffix := fmt.Sprintf("minted_at_%d", exp.Height-1)
+		for store, kv := range srcKV {
+			for key, v := range kv {
+				if !strings.HasSuffix(key, suffix) {
+					continue
+				}
+				if v2, ok2 := dstKV[store][key]; !ok2 || string(v2) != string(v) {
+					findings = append(findings, c19Finding{"C19/lost/jklmint/latest-MintedBlock", fmt.Sprintf("the emission record of the export height %d (store %s, key %q) is %x after import (present: %v), was %x", exp.Height-1, store, key, v2, ok2, v)})
+				}
+				rc.Eval(1)
+				rc.Count("latest_minted_record_compared", 1)
+			}
+		}
+	}
 	qf, ev, unanswered := c19CompareAnswers(plan, preAns, postAns)
 	rc.Eval(ev)
 	rc.Count("queries_compared", ev)
